@@ -104,8 +104,16 @@ func (s *BlockchainRpcTxWatcher) StartWatchingTxs() error {
 			case <-s.ctx.Done():
 				return nil
 			case nb := <-s.newBlockChan:
+				// The observation loops add and remove themselves
+				// concurrently: read the list under the lock.
+				s.Lock()
+				blockChans := make([]chan uint32, 0, len(s.observerLoopList))
 				for _, obs := range s.observerLoopList {
-					go func(height uint32) { obs.blockChan <- height }(uint32(nb))
+					blockChans = append(blockChans, obs.blockChan)
+				}
+				s.Unlock()
+				for _, blockChan := range blockChans {
+					go func(blockChan chan uint32, height uint32) { blockChan <- height }(blockChan, uint32(nb))
 				}
 				// Todo: HandleCsvTx could also need a refresh.
 				err := s.HandleCsvTx(nb)
